@@ -21,10 +21,13 @@ Sec(dict, tag) == IF tag \in HardHeader \/ (dict = "fixt" /\ tag \in DictHeader)
                   ELSE IF tag \in HardTrailer \/ (dict = "fixt" /\ tag \in DictTrailer) THEN "t"
                   ELSE "b"
 
-\* c = [fields, lead, delta, dict, xml]
+\* c = [fields, lead, delta, dict, xml, gidx]
 Accept(c) == c.lead = "ok" /\ c.delta = 0
 
-InSec(c, s) == {c.fields[i] : i \in {j \in DOMAIN c.fields : Sec(c.dict, c.fields[j][1]) = s}}
+\* c.gidx: positions of the member fields of a repeating group the application dictionary defines.  With that
+\* dictionary in use they are reached through the group (C13), not as fields of the body itself.
+Grouped(c, j) == c.dict # "none" /\ j \in {c.gidx[k] : k \in DOMAIN c.gidx}
+InSec(c, s) == {c.fields[i] : i \in {j \in DOMAIN c.fields : Sec(c.dict, c.fields[j][1]) = s /\ ~Grouped(c, j)}}
 ToSet(q) == {q[i] : i \in DOMAIN q}
 
 \* obs = [ok, hdr, body, trl, order, bytesSame]
